@@ -64,7 +64,7 @@ def _small_scope(tier):
     splitss3 = list(_subsets(list(range(0, 4)))) + [[1, 5], [6], [-2, 2]]
     for t in fibs:
         for S in splitss:
-            for pre, post in halos:
+            for pre, post in ((0, 0), (1, 0), (0, 1), (1, 1), (2, 0), (0, 2)) if tier == "quick" else halos:
                 i += 1
                 yield _base("nonuniform", t, splits=S, pre=pre, post=post, rel=bool(i & 1))
     for t in fibs3:
@@ -349,7 +349,7 @@ def _random(seed, tier):
 
 def gen(seed, tier):
     for i, c in enumerate(_small_scope(tier)):
-        if i % 8 == 0:
+        if i % 12 == 0:
             c["twice"] = True          # state left behind / sharing with the operand / repeatability
         yield c
     for c in _random(seed, tier):
